@@ -63,7 +63,7 @@ def candidates(files, max_per_file):
             st = line.strip()
             if st.startswith("#[cfg(test)]"):
                 in_test = True
-            if in_test or st.startswith("//") or st.startswith("#[") or st.startswith("use ") or "println!" in st or "format!" in st or "wasm_bindgen" in st or "verif" in st:
+            if in_test or st.startswith("//") or st.startswith("*") or st.startswith("/*") or st.startswith("#[") or st.startswith("use ") or "println!" in st or "format!" in st or "wasm_bindgen" in st or "verif" in st:
                 continue
             code = line.split("//")[0]
             for oi, (pat, rep) in enumerate(OPS):
